@@ -49,7 +49,7 @@ def step (d : D) (w : List String) : D × String :=
   match w with
   | ["init", n, variant] =>
     match n.toNat? with
-    | some n => ({ d with nAddrs := n, fixed := variant != "asis" }, "ok")
+    | some n => ({ nAddrs := n, fixed := variant != "asis", stable := St.empty, cur := St.empty }, "ok")
     | none => (d, "bad-op")
   | ["block", _] => ({ d with stable := d.cur }, "ok")
   | "tx" :: rest =>
